@@ -413,9 +413,10 @@ with exec (n : nat) (fn : bool) (s : stmt) (σ : state) {struct n} : res (outcom
                      end)
         else Err
     | SRestart allowed =>
-        if fn || allowed then OK (OState st_restart, σ) else Err
+        (* the scope guard of ProcessBlockStatement applies in procedures and functions alike *)
+        if allowed then OK (OState st_restart, σ) else Err
     | SError allowed gs gr code arg =>
-        if negb fn && negb allowed then Err else
+        if negb allowed then Err else
         (* assign.Assign(ctx.ObjectStatus, code); assign.Assign(ctx.ObjectResponse, arg) *)
         do σ1 <- match code with
                  | None => OK σ
